@@ -295,6 +295,25 @@ def encode(stack):
   return assemble(stack)[0]
 
 
+def apply_edit(stack, e):
+  """ApplyEdit of PktWireEdits.tla: the stack after edit e = {li, c, op, i, v}"""
+  stack = [dict(L) for L in stack]
+  L = stack[e["li"] - 1]
+  if e["op"] == "setf":
+    L[e["c"]] = e["v"]["x"]
+    return stack
+  xs = [x for x in L[e["c"]] if not (L["p"] == "dhcp" and x["k"] == 0)]
+  i = e["i"] - 1
+  if e["op"] == "replace":
+    xs[i] = e["v"]
+  elif e["op"] == "add":
+    xs.insert(i, e["v"])
+  else:
+    del xs[i]
+  L[e["c"]] = xs
+  return stack
+
+
 def pad_variants(stack):
   """the serialisations the oracle accepts for one stack: they differ only in where DHCP pad options go
   (none, or one after every option of odd size) and in whether repeated DNS names are compressed -
